@@ -445,8 +445,10 @@ struct RunRec
 
 static uint64_t prop_hash(const std::string& p) { return fnv1a(FNV_INIT, p.data(), p.size()); }
 
+static bool g_sweep = false;  // enumerated fault space: the run seed is the index itself
 static uint64_t run_seed_for(uint64_t batch_seed, const std::string& prop, int64_t index)
 {
+    if (g_sweep) return uint64_t(index);
     return mix64(mix64(batch_seed, prop_hash(prop)), uint64_t(index)) >> 1;
 }
 
@@ -720,6 +722,11 @@ int main(int argc, char** argv)
         return 0;
     }
 
+    if (arg_flag(argc, argv, "--sweep"))
+    {
+        g_sweep = true;
+        tier = "sweep";
+    }
     int workers = atoi(arg_val(argc, argv, "--workers", "16"));
     int64_t runs = atoll(arg_val(argc, argv, "--runs", std::to_string(default_runs(prop, tier)).c_str()));
     double budget = atof(arg_val(argc, argv, "--budget-s", tier == "quick" ? "75" : "1500"));
@@ -957,6 +964,7 @@ int main(int argc, char** argv)
         o << "    \"rule\": \"one evaluation = one simulated world (fresh engine::Uci, scripted GUI session, seeded scheduler, simulated clock); distinct = distinct (context-switch signature, event-trace hash); non-trivial = at least one fault, stop-window, rare-condition probe or monitor/oracle comparison counter fired inside the run and at least two context switches happened\",\n";
         o << "    \"distinct_signatures\": " << sigs.size() << ",\n";
         o << "    \"runs_requested\": " << runs << ",\n";
+        o << "    \"exhaustive\": " << (g_sweep ? "true" : "false") << ",\n";
         o << "    \"runs_crashed\": " << crashed << ",\n";
         o << "    \"runs_infra_error\": " << infra << ",\n";
         o << "    \"worker_restarts\": " << B.worker_restarts << ",\n";
@@ -965,7 +973,7 @@ int main(int argc, char** argv)
         o << "    \"scheduler_decisions\": " << total_steps << ",\n";
         o << "    \"context_switches\": " << total_ctx << ",\n";
         o << "    \"sim_time_ms\": " << total_sim_ns / 1000000 << ",\n";
-        o << "    \"variant\": \"" << VERIF_VARIANT << "\",\n";
+        o << "    \"variant\": \"" << VERIF_VARIANT << (g_sweep ? "-sweep" : "") << "\",\n";
         o << "    \"counters\": {";
         bool first = true;
         for (auto& kv : counters)
